@@ -204,6 +204,43 @@ func H_l2_alias() {
 		v1, f1 := st.Get(q)
 		r1, g1 := st.RangeGet(q)
 		vAssert(f0 == f1 && c.sameIface(v0, v1) && g0 == g1 && c.sameIface(r0, r1), "C20.buf-overwrite-harmless")
+	case 3: // caller-owned value memory ([]byte values through encode.Bytes) is not retained
+		vals := make([][]byte, c.n)
+		for i := range vals {
+			vals[i] = vBytes("bv", 2)
+		}
+		copies := make([][]byte, c.n)
+		for i := range vals {
+			copies[i] = append([]byte{}, vals[i]...)
+		}
+		st, err := NewSlimTrie(encode.Bytes{Size: 2}, c.keys, vals, vOptCase(c.optc))
+		vAssert(err == nil, "build-ok")
+		if err != nil {
+			vAssume(false)
+		}
+		for i := range vals {
+			vAssert(!vReachable(st, vals[i]), "C20.values-not-retained")
+		}
+		g0, f0 := st.RangeGet(q)
+		var g0c []byte
+		if g0 != nil {
+			g0c = append([]byte{}, g0.([]byte)...)
+		}
+		for i := range vals {
+			vHavocBytes(vals[i], "junk")
+		}
+		g1, f1 := st.RangeGet(q)
+		vAssert(f0 == f1 && (g0 == nil) == (g1 == nil), "C20.values-overwrite-harmless")
+		if g0 != nil && g1 != nil {
+			vAssert(vBytesEq(g1.([]byte), g0c), "C20.values-overwrite-harmless")
+		}
+		// every key still maps to the value supplied for it
+		ok := true
+		for i := range c.keys {
+			v, f := st.RangeGet(c.keys[i])
+			ok = vAnd(ok, vAnd(f, v != nil && vBytesEq(v.([]byte), copies[i])))
+		}
+		vAssert(ok, "C20.values-overwrite-harmless")
 	case 2: // bytes returned by Marshal are independent of the trie
 		c.build()
 		out, _ := c.st.Marshal()
